@@ -281,6 +281,21 @@ func genMergeCase(r *rand.Rand, injectPct int) *mergeCase {
 		}
 		mc.Services = append(mc.Services, s)
 	}
+	if nsvc >= 3 && r.Intn(5) == 0 {
+		// an object type split over the services with no field in common (no id either): the first
+		// service declares three fields, every other one a single field of its own -- whatever a merge
+		// does with the first service's field list, it has room for exactly one more entry
+		for i, s := range mc.Services {
+			d := &mDef{Kind: "type", Name: "Stats"}
+			if i == 0 {
+				d.Fields = []mField{{Name: "views", Type: "Int"}, {Name: "likes", Type: "Int"}, {Name: "since", Type: "String"}}
+			} else {
+				d.Fields = []mField{{Name: "count" + s.Name, Type: "Int"}}
+			}
+			s.Defs = append(s.Defs, d)
+		}
+		mc.Tags = append(mc.Tags, "disjoint-object-parts")
+	}
 	if r.Intn(100) < injectPct {
 		mc.Mutation = injectIncompat(r, mc, uni)
 	}
